@@ -34,7 +34,8 @@ def class_representatives(rules):
 # ---- (a) rule semantics -------------------------------------------------------------------
 def model_all(rule, exc, s):
     sites = ET.sites(rule, s, exc)
-    allst = set(sites)
+    # the stop-aware functions serve the graph: a "site" after the last residue of a fragment is no bond
+    allst = set(x for x in sites if x < len(s))
     for i, ch in enumerate(s):
         if ch == '*':
             if i > 0:
